@@ -172,6 +172,9 @@ def fuel (c : Cfg) : Nat := c.dsets.length + 1
 
 def trace (c : Cfg) : List (St × Row) := run c (fuel c) (init c)
 
+/-- the state `gather` stops in -/
+def stopState (c : Cfg) : St := final c (fuel c) (init c)
+
 /-- `prepare_gather_counters` + `gather` -/
 def gather (c : Cfg) : List Row := (trace c).map (·.2)
 
